@@ -356,6 +356,10 @@ func (e *specEnv) ident(name string) Value {
 				return x.loadLoc(e.s, x.globalLoc(o))
 			}
 			if _, ok := e.s.vars[o]; !ok && !x.boxedVar[o] {
+				// a variable captured by a function literal that is verified on its own is an arbitrary input
+				if x.fi.Lit != nil && (o.Pos() < x.fi.Lit.Pos() || o.Pos() > x.fi.Lit.End()) {
+					return x.readVar(sinkOf(e.s), o)
+				}
 				e.fail("variable %s has no value at this point", name)
 			}
 			return x.readVar(e.s, o)
@@ -758,6 +762,35 @@ func (e *specEnv) evalModTargets(ex SExpr) []modTarget {
 					lo, hi = e.ev(ex.Args[1]).Term, e.ev(ex.Args[2]).Term
 				}
 				return elemsOf(sv, lo, hi)
+			case "elemsField":
+				// elemsField(s, "f.g"): the leaves below field path f.g of every cell of s
+				sv := e.ev(ex.Args[0])
+				fs, ok := ex.Args[1].(SStr)
+				st, ok2 := sv.T.Underlying().(*types.Slice)
+				if !ok || !ok2 {
+					e.fail("elemsField(s, \"field\")")
+				}
+				ft := st.Elem()
+				for _, name := range strings.Split(fs.Val, ".") {
+					stt, ok := ft.Underlying().(*types.Struct)
+					if !ok {
+						e.fail("elemsField: %s is not a struct", typeStr(ft))
+					}
+					found := false
+					for i := 0; i < stt.NumFields(); i++ {
+						if stt.Field(i).Name() == name {
+							ft, found = stt.Field(i).Type(), true
+						}
+					}
+					if !found {
+						e.fail("elemsField: no field %s", name)
+					}
+				}
+				pre := sliceRegion(st.Elem()) + "." + fs.Val
+				reg(pre, 2, ft)
+				return []modTarget{{prefix: pre, match: func(ref, idx *Term) *Term {
+					return c.And(c.Eq(ref, sv.Sl.Arr), c.Le(sv.Sl.Off, idx), c.Lt(idx, c.Add(sv.Sl.Off, sv.Sl.Cap)))
+				}}}
 			case "region":
 				s, ok := ex.Args[0].(SStr)
 				if !ok {
